@@ -42,7 +42,10 @@ impl<T: Copy, const CAPACITY: usize> StackStack<T, CAPACITY> {
 /// "foo/./bar" => "foo/bar".
 /// These paths can show up due to variable expansion in particular.
 pub fn canonicalize_path(path: &mut String) {
-    assert!(!path.is_empty());
+    if path.is_empty() {
+        // Nothing to simplify; callers decide whether an empty path is acceptable.
+        return;
+    }
     let mut components = StackStack::<usize, 60>::new();
 
     // Safety: we will modify the string by removing some ASCII characters in place
